@@ -442,3 +442,178 @@ Proof.
     apply (Permutation_trans (Permutation_app_tail [w] Hp)).
     rewrite <- !app_assoc. apply Permutation_app_head. apply Permutation_app_head. apply Permutation_app_comm.
 Qed.
+
+Lemma In_skipn {A} (x : A) k l : In x (skipn k l) -> In x l.
+Proof. intros H. rewrite <- (firstn_skipn k l). apply in_or_app. right. exact H. Qed.
+
+Lemma step_C2 s e : Inv s -> P_C2 (fst (step s e)).
+Proof.
+  intros HI. pose proof (step_op_trans s e HI) as Hot. revert Hot. unfold P_C2.
+  step_split s e HI; intros Hot j Hin;
+    try (apply (dropped_stable _ _ (Hot j)); apply (inv_C2 _ HI j); first [exact Hin | eapply In_skipn; exact Hin]).
+  - (* a submission is queued *)
+    apply in_app_or in Hin. destruct Hin as [Hin|[Hin|[]]]; [|discriminate].
+    apply (dropped_stable _ _ (Hot j)). apply (inv_C2 _ HI j). exact Hin.
+  - (* a cancel request is queued: the operation becomes Dropped in the same step *)
+    apply in_app_or in Hin. destruct Hin as [Hin|[Hin|[]]].
+    + apply (dropped_stable _ _ (Hot j)). apply (inv_C2 _ HI j). exact Hin.
+    + injection Hin as <-. rewrite upd_same. reflexivity.
+Qed.
+
+Definition gone (o : op) : Prop := o_alloc o = false \/ o_st o = Dropped.
+
+(** An operation becomes freed-or-dropped only through the [DropOp] call of a thread, which that
+    call then leaves behind. *)
+Lemma step_newly_gone s e : Inv s -> forall j, gone (ops (fst (step s e)) j) ->
+  gone (ops s j) \/ exists k r, f_prog (thr s k) = DropOp j :: r /\ f_prog (thr (fst (step s e)) k) = r.
+Proof.
+  intros HI j. unfold gone.
+  step_split s e HI; intros Hg; try (left; exact Hg);
+    try (updcase j i; [|left; exact Hg]); ssimpl;
+    try (left; destruct Hg as [Hg|Hg]; [left; exact Hg|right; first [exact Hg|congruence]]);
+    try (left; right; assumption);
+    try (right; exists k, r; split; [assumption|rewrite Nat.eqb_refl; ssimpl; rewrite Hprog; reflexivity]).
+Qed.
+
+Lemma step_gone s e : Inv s -> P_gone (fst (step s e)).
+Proof.
+  intros HI j Hg t Hu.
+  pose proof (step_shrinks s e HI) as Hsh.
+  destruct (step_newly_gone s e HI j Hg) as [Hold|[k [r [Hp Hp']]]].
+  - apply (inv_gone _ HI j Hold t). eapply shrinks_uses; [apply Hsh|exact Hu].
+  - assert (Hk : uses (f_prog (thr s k)) j) by (rewrite Hp; apply uses_hd; cbn; apply Nat.eqb_refl).
+    assert (Ht : uses (f_prog (thr s t)) j) by (eapply shrinks_uses; [apply Hsh|exact Hu]).
+    pose proof (inv_own _ HI t k j Ht Hk) as ->.
+    pose proof (inv_lin _ HI k) as Hl. rewrite Hp in Hl. destruct Hl as [Hl _].
+    rewrite Hp' in Hu. exact (Hl Hu).
+Qed.
+
+(** [thread_ok] of a thread only reads the thread and the operation of its current call. *)
+Lemma thread_ok_frame s s' t i :
+  thr s' t = thr s t -> (forall j, j <> i -> ops s' j = ops s j) ->
+  ~ uses (f_prog (thr s t)) i -> thread_ok s t -> thread_ok s' t.
+Proof.
+  intros Ht Ho Hu. unfold thread_ok. cbv zeta. rewrite Ht.
+  destruct (f_prog (thr s t)) as [|[i0 w|i0|] r] eqn:Hp; try exact (fun H => H).
+  - assert (i0 <> i) by (intros ->; apply Hu; apply uses_hd; cbn; apply Nat.eqb_refl).
+    rewrite (Ho i0) by assumption. exact (fun H => H).
+  - assert (i0 <> i) by (intros ->; apply Hu; apply uses_hd; cbn; apply Nat.eqb_refl).
+    rewrite (Ho i0) by assumption. exact (fun H => H).
+Qed.
+
+Lemma thread_ok_same s s' t :
+  thr s' t = thr s t -> (forall j, ops s' j = ops s j) -> thread_ok s t -> thread_ok s' t.
+Proof.
+  intros Ht Ho. unfold thread_ok. cbv zeta. rewrite Ht.
+  destruct (f_prog (thr s t)) as [|[i0 w|i0|] r]; rewrite ?Ho; exact (fun H => H).
+Qed.
+
+Lemma not_uses_other s k t i c r : Inv s -> f_prog (thr s k) = c :: r -> mentions i c = true -> t <> k ->
+  ~ uses (f_prog (thr s t)) i.
+Proof.
+  intros HI Hp Hm Hne Hu. apply Hne. apply (inv_own _ HI t k i Hu). rewrite Hp. apply uses_hd. exact Hm.
+Qed.
+
+(** The ring thread updates an operation only with its mutex free, and never a not-started one. *)
+Lemma thread_ok_dispatch s s' t i :
+  thr s' t = thr s t -> (forall j, j <> i -> ops s' j = ops s j) ->
+  o_holder (ops s i) = None ->
+  (o_st (ops s i) = NotStarted -> o_st (ops s' i) = NotStarted) ->
+  thread_ok s t -> thread_ok s' t.
+Proof.
+  intros Ht Ho Hh Hns. unfold thread_ok. cbv zeta. rewrite Ht.
+  destruct (f_prog (thr s t)) as [|[i0 w|i0|] r] eqn:Hp; try exact (fun H => H).
+  - destruct (Nat.eq_dec i0 i) as [->|Hne]; [|rewrite (Ho i0) by assumption; exact (fun H => H)].
+    intros [H1 H2]. split.
+    + intros Hx. destruct (H1 Hx) as [_ Hc]. congruence.
+    + intros Hx. apply Hns. exact (H2 Hx).
+  - destruct (Nat.eq_dec i0 i) as [->|Hne]; [|rewrite (Ho i0) by assumption; exact (fun H => H)].
+    intros [H1 H2]. split.
+    + intros Hx. destruct (H1 Hx) as [_ Hc]. congruence.
+    + exact H2.
+Qed.
+
+Ltac thr_other s t k i HI Ht Hne :=
+  first
+  [ apply (thread_ok_same s); [ssimpl; apply upd_other; exact Hne|intros; reflexivity|exact Ht]
+  | apply (thread_ok_frame s _ t i);
+    [ssimpl; apply upd_other; exact Hne
+    |let j := fresh "j" in let Hj := fresh "Hj" in intros j Hj; ssimpl; apply upd_other; exact Hj
+    |eapply (not_uses_other s k t i); [exact HI|eassumption|cbn; apply Nat.eqb_refl|exact Hne]
+    |exact Ht] ].
+
+Lemma step_thr s e : Inv s -> P_thr (fst (step s e)).
+Proof.
+  intros HI t. pose proof (inv_thr _ HI t) as Ht.
+  step_split s e HI;
+    try (apply (thread_ok_same s); [reflexivity|reflexivity|exact Ht]);
+    try (apply (thread_ok_dispatch s _ t i);
+         [reflexivity|intros j Hj; ssimpl; apply upd_other; exact Hj|assumption
+         |ssimpl; rewrite upd_same; ssimpl; congruence|exact Ht]);
+    try (destruct (Nat.eq_dec t k) as [->|Hne];
+         [ unfold thread_ok; cbv zeta; ssimpl; rewrite !upd_same; ssimpl; rewrite ?Hprog; cbn [in_add tl];
+           split; intros Hx; try discriminate; ssimpl; auto;
+           rewrite ?upd_same; ssimpl; auto
+         | thr_other s t k i HI Ht Hne ]).
+Qed.
+
+Ltac st_rewrite s Ht :=
+  repeat match goal with
+  | H : cq s = _ |- _ => rewrite H in Ht
+  | H : o_st (ops s _) = _ |- _ => rewrite H in Ht
+  | H : o_alloc (ops s _) = _ |- _ => rewrite H in Ht
+  end.
+
+Ltac eqb_norm :=
+  rewrite ?Nat.eqb_refl in *;
+  repeat match goal with
+  | H : ?a <> ?b |- _ =>
+      first [ rewrite (proj2 (Nat.eqb_neq a b) H) in *
+            | rewrite (proj2 (Nat.eqb_neq b a) (not_eq_sym H)) in * ]
+  end.
+
+Lemma step_tk s e : Inv s -> P_tk (fst (step s e)).
+Proof.
+  intros HI.
+  step_split s e HI; alive_facts s HI; unfold P_tk, tokens; intros j; ssimpl;
+    pose proof (inv_tk _ HI j) as Ht; unfold tokens in Ht;
+    try exact Ht;
+    st_rewrite s Ht;
+    try specialize (Hadvc j); try specialize (Hkc j);
+    try match goal with H : cq s = _ |- _ => rewrite H in Hadvc end;
+    try match goal with |- context [skipn ?K (sq s)] => rewrite (cnt_split (is_submit j) K (sq s)) in Ht end;
+    try match goal with Hm : mem ?i0 (inflight s) = true |- _ =>
+          destruct (Nat.eq_dec j i0) as [->|Hji];
+          [pose proof (cnt_remove_same i0 _ Hm)|rewrite (cnt_remove_other j i0) by exact Hji] end;
+    rewrite ?cnt_app, ?cnt_cons, ?cnt_nil in *; cbn [is_submit is_cop] in *;
+    try (updcase j i); ssimpl; eqb_norm;
+    repeat match goal with
+    | H : o_st (ops s _) = _ |- _ => rewrite H in *
+    | H : o_alloc (ops s _) = _ |- _ => rewrite H in *
+    end;
+    cbn [live andb] in *; try discriminate; try congruence; try lia.
+Qed.
+
+(** * The invariant holds in every reachable state *)
+Lemma step_inv s e : Inv s -> Inv (fst (step s e)).
+Proof.
+  intros HI. constructor.
+  - apply step_own; exact HI.
+  - apply step_lin; exact HI.
+  - apply step_gone; exact HI.
+  - apply step_thr; exact HI.
+  - apply step_A; exact HI.
+  - apply step_B; exact HI.
+  - apply step_tk; exact HI.
+  - apply step_F; exact HI.
+  - apply step_C; exact HI.
+  - apply step_C2; exact HI.
+  - apply step_bad; exact HI.
+  - apply step_sq; exact HI.
+  - apply step_wb; exact HI.
+  - apply step_park; exact HI.
+Qed.
+
+Lemma reachable_inv cap0 auto0 canc npolls progs es : progs_ok progs ->
+  Inv (fst (run step (init cap0 auto0 canc npolls progs) es)).
+Proof. intros Hp. apply run_invariant; [exact step_inv|apply init_inv; exact Hp]. Qed.
